@@ -353,6 +353,33 @@ def judge_apply_matrix(ctx, rng, tr, mobile_obj, fitted, tol_scale):
            "apply(x) differs from as_matrix() @ (x, 1)")
     within(ctx, "matrix_form", ref[..., 3] - 1.0, 1e-12, "homogeneous coordinate after as_matrix() is not 1")
     within(ctx, "matrix_form", Mx[:, 3, :] - np.array([0, 0, 0, 1.0]), 0.0, "last row of as_matrix() is not (0,0,0,1)")
+    # the matrix handed out is the caller's; and the public parts (rotation, translations) define the transformation:
+    # after editing the returned matrix, or assigning new parts, apply() and as_matrix() must still agree
+    if rng.random() < 0.5:
+        ctx.oracle("matrix_form_after_edit")
+        first = tr.as_matrix()
+        first[...] = 0.0
+        again_m = np.asarray(tr.as_matrix(), np.float64)
+        within(ctx, "matrix_form_after_edit", again_m - Mx, 0.0, "as_matrix() changed after the caller edited a previously returned matrix")
+        import copy as _copy
+        t2 = _copy.copy(tr)
+        ang = float(rng.uniform(0.3, 2.5))
+        rz = np.array([[np.cos(ang), -np.sin(ang), 0.0], [np.sin(ang), np.cos(ang), 0.0], [0.0, 0.0, 1.0]])
+        new_rot = np.einsum("ij,mjk->mik", rz, np.asarray(tr.rotation, np.float64)).astype(tr.rotation.dtype)
+        new_tt = (np.asarray(tr.target_translation, np.float64) + rng.normal(size=(1, 3)) * tol_scale).astype(tr.target_translation.dtype)
+        t2.rotation = new_rot
+        t2.target_translation = new_tt
+        out2 = np.asarray(t2.apply(arg), np.float64).reshape(m, kk, 3)
+        M2 = np.asarray(t2.as_matrix(), np.float64)
+        ref2 = np.einsum("mij,mkj->mki", M2, h)[..., :3]
+        byhand = np.einsum("mij,mkj->mki", np.asarray(new_rot, np.float64),
+                           other.astype(np.float64) + np.asarray(tr.center_translation, np.float64).reshape(-1, 1, 3)) \
+            + np.asarray(new_tt, np.float64).reshape(-1, 1, 3)
+        mag2 = mag + absmax(new_tt)
+        within(ctx, "matrix_form_after_edit", np.sqrt(((ref2 - out2) ** 2).sum(-1)), K_TOL * E32 * mag2,
+               "after assigning rotation/target_translation: apply(x) differs from as_matrix() @ (x, 1)")
+        within(ctx, "matrix_form_after_edit", np.sqrt(((byhand - out2) ** 2).sum(-1)), K_TOL * E32 * mag2,
+               "after assigning rotation/target_translation: apply(x) differs from R (x + c) + t computed from the attributes")
 
 
 # ====================================================================== strata: fit / rigid_copy
